@@ -16,7 +16,7 @@ PROPS["C15"] = dict(
                  "sense is observed through maxObjReal = sense * objReal, offset only through the objective value of a default solve"],
     min_nontrivial=dict(quick=8000, thorough=150000),
     stages=[dict(name="main", target="c15", flavour="plain",
-                 quick=dict(cases=1500, maxsize=70), thorough=dict(cases=40000, maxsize=100)),
+                 quick=dict(cases=5000, maxsize=70), thorough=dict(cases=40000, maxsize=100)),
             dict(name="sweep", target="c15", flavour="plain", x=dict(sweep="1"),
                  quick=dict(cases=2, maxsize=70), thorough=dict(cases=6, maxsize=100))],
 )
